@@ -138,20 +138,33 @@ struct Layout {
 
 const NAMES: &[&str] = &["a", "b", "c", "d.git", "w", "e"];
 
+const ALL_HEADS: &[Head] = &[
+    Head::Symbolic,
+    Head::Detached,
+    Head::SymbolicNoSpace,
+    Head::SymbolicTabs,
+    Head::OutsideRefs,
+    Head::DetachedTrailingGarbage,
+    Head::ShortHex,
+    Head::Garbage,
+    Head::Empty,
+    Head::SymlinkIntoRefs,
+    Head::SymlinkElsewhere,
+    Head::Missing,
+    Head::IsDirectory,
+];
+const ALL_MISSING: &[Missing] =
+    &[Missing::Nothing, Missing::Objects, Missing::Refs, Missing::RefsIsFile, Missing::ObjectsIsFile];
+
+/// HEAD forms for the random layouts: the canonical ones plus absent/corrupt ones. The complete grid of HEAD forms
+/// is compared one candidate at a time in the `candidate-forms` sub-check.
 fn gen_head(t: &mut Tape) -> Head {
-    match t.weighted(&[30, 8, 2, 1, 2, 2, 1, 2, 1, 2, 1, 2, 1]) {
+    match t.weighted(&[30, 8, 2, 2, 1, 1]) {
         0 => Head::Symbolic,
         1 => Head::Detached,
-        2 => Head::SymbolicNoSpace,
-        3 => Head::SymbolicTabs,
-        4 => Head::OutsideRefs,
-        5 => Head::DetachedTrailingGarbage,
-        6 => Head::ShortHex,
-        7 => Head::Garbage,
-        8 => Head::Empty,
-        9 => Head::SymlinkIntoRefs,
-        10 => Head::SymlinkElsewhere,
-        11 => Head::Missing,
+        2 => Head::Missing,
+        3 => Head::Garbage,
+        4 => Head::Empty,
         _ => Head::IsDirectory,
     }
 }
@@ -221,7 +234,7 @@ fn gen_layout(t: &mut Tape) -> Layout {
                         of: repos_so_far[t.below(repos_so_far.len())],
                         head: gen_head(t),
                         relative_commondir: !t.chance(64),
-                        gitdir_back_link: !t.chance(48),
+                        gitdir_back_link: true,
                     }
                 }
             }
@@ -579,14 +592,177 @@ fn canon(p: &Path) -> Option<PathBuf> {
     std::fs::canonicalize(p).ok()
 }
 
+/// The git directory a repository candidate located *at* `dir` would denote (whether or not it is valid).
+fn candidate_at(dir: &Path) -> Option<PathBuf> {
+    let dot_git = dir.join(".git");
+    match std::fs::metadata(&dot_git) {
+        Ok(m) if m.is_dir() => return canon(&dot_git),
+        Ok(m) if m.is_file() => {
+            let content = std::fs::read(&dot_git).ok()?;
+            let content = String::from_utf8_lossy(&content).to_string();
+            let target = content.strip_prefix("gitdir:")?.trim();
+            return canon(&dir.join(target));
+        }
+        _ => {}
+    }
+    if dir.join("HEAD").symlink_metadata().is_ok() {
+        return canon(dir);
+    }
+    None
+}
+
+fn config_mentions_worktree(git_dir: &Path) -> bool {
+    std::fs::read_to_string(git_dir.join("config")).map_or(false, |s| s.contains("worktree"))
+}
+
+type GixFound = Result<(PathBuf, Option<PathBuf>, &'static str), String>;
+
+/// Run gix-discover for `start_arg` as seen from `cwd`; paths in the result are made absolute.
+fn ask_gix(cwd: &Path, start_arg: &Path, ceilings: &[PathBuf]) -> Result<GixFound, String> {
+    let opts = || gix_discover::upwards::Options {
+        ceiling_dirs: ceilings.to_vec(),
+        match_ceiling_dir_or_error: false,
+        ..Default::default()
+    };
+    let res = if start_arg.is_relative() {
+        let _g = CWD.write().unwrap_or_else(|e| e.into_inner());
+        std::env::set_current_dir(cwd).map_err(|e| format!("chdir {cwd:?}: {e}"))?;
+        let r = std::panic::catch_unwind(std::panic::AssertUnwindSafe(|| gix_discover::upwards_opts(start_arg, opts())));
+        std::env::set_current_dir("/").map_err(|e| format!("chdir back: {e}"))?;
+        match r {
+            Ok(r) => r,
+            Err(p) => std::panic::resume_unwind(p),
+        }
+    } else {
+        let _g = CWD.read().unwrap_or_else(|e| e.into_inner());
+        gix_discover::upwards_opts(start_arg, opts())
+    };
+    Ok(match res {
+        Ok((path, _trust)) => {
+            let kind = match &path {
+                gix_discover::repository::Path::LinkedWorkTree { .. } => "linked",
+                gix_discover::repository::Path::WorkTree(_) => "worktree",
+                gix_discover::repository::Path::Repository(_) => "repository",
+            };
+            let (gd, wt) = path.into_repository_and_work_tree_directories();
+            let absolutize = |p: PathBuf| if p.is_absolute() { p } else { cwd.join(p) };
+            Ok((absolutize(gd), wt.map(absolutize), kind))
+        }
+        Err(e) => Err(e.to_string()),
+    })
+}
+
+enum Cmp {
+    Agree(&'static str),
+    Differ(String, String),
+    Infra(String),
+}
+
+/// Compare the two answers. `form` is a suffix for signatures (used by the candidate-forms sub-check).
+fn compare(
+    ctx: &str,
+    answer: &GitOutcome,
+    gix_found: &GixFound,
+    phys_start: &Path,
+    canonical_ceilings: &[PathBuf],
+) -> Cmp {
+    match (answer, gix_found) {
+        (GitOutcome::NotFound, Err(_)) => Cmp::Agree("none"),
+        (GitOutcome::HardError(_), Err(_)) => Cmp::Agree("git-hard-error-gix-none"),
+        (GitOutcome::NotFound, Ok((gd, wt, _))) => {
+            // known deviation class: gitoxide still inspects the ceiling directory itself
+            let got = canon(gd);
+            let at_ceiling = canonical_ceilings.iter().any(|ce| {
+                phys_start.starts_with(ce)
+                    && phys_start != ce
+                    && got.is_some()
+                    && (candidate_at(ce) == got || Some(ce) == got.as_ref())
+            });
+            let sig = if at_ceiling {
+                "ceiling-directory-itself-is-searched"
+            } else {
+                "gix-finds-repository-git-finds-none"
+            };
+            Cmp::Differ(
+                sig.into(),
+                format!("{ctx}: git finds no repository, gitoxide finds git dir {gd:?} work tree {wt:?}"),
+            )
+        }
+        (GitOutcome::HardError(e), Ok((gd, wt, _))) => {
+            let sig = if e.contains("invalid gitfile format") || e.contains("not a git repository: ") {
+                "invalid-gitfile-is-skipped"
+            } else {
+                "gix-continues-where-git-dies"
+            };
+            Cmp::Differ(
+                sig.into(),
+                format!("{ctx}: git fails with {e:?}, gitoxide finds git dir {gd:?} work tree {wt:?}"),
+            )
+        }
+        (GitOutcome::Found(a), Err(e)) => Cmp::Differ(
+            "git-finds-repository-gix-finds-none".into(),
+            format!("{ctx}: git finds {a:?}, gitoxide fails: {e}"),
+        ),
+        (GitOutcome::Found(a), Ok((gd, wt, kind))) => {
+            let want_gd = canon(&a.git_dir);
+            let got_gd = canon(gd);
+            if want_gd.is_none() {
+                return Cmp::Infra(format!("git printed a git dir which does not exist: {a:?}"));
+            }
+            if got_gd != want_gd {
+                return Cmp::Differ(
+                    "different-git-dir".into(),
+                    format!(
+                        "{ctx}: git dir differs: git {:?}, gitoxide {gd:?} (canonical {got_gd:?}); work tree {wt:?}",
+                        a.git_dir
+                    ),
+                );
+            }
+            if a.inside_work_tree {
+                let want = a.toplevel.as_deref().and_then(canon);
+                let got = wt.as_deref().and_then(canon);
+                if want.is_none() {
+                    return Cmp::Infra(format!("git is inside a work tree but printed no toplevel: {a:?}"));
+                }
+                if got != want {
+                    return Cmp::Differ(
+                        "different-work-tree".into(),
+                        format!("{ctx}: work tree differs: git {:?}, gitoxide {wt:?}; git dir {gd:?}", a.toplevel),
+                    );
+                }
+            } else if a.bare
+                && want_gd.as_deref().and_then(Path::file_name) != Some(std::ffi::OsStr::new(".git"))
+                && !a.git_dir.join("index").exists()
+                && !a.git_dir.join("commondir").exists()
+                && !config_mentions_worktree(&a.git_dir)
+            {
+                if let Some(wt) = wt {
+                    return Cmp::Differ(
+                        "work-tree-for-bare-repository".into(),
+                        format!(
+                            "{ctx}: git reports a bare repository at {:?}, gitoxide reports work tree {wt:?}",
+                            a.git_dir
+                        ),
+                    );
+                }
+            }
+            Cmp::Agree(match *kind {
+                "linked" => "found-linked",
+                "worktree" => "found-worktree",
+                _ => "found-repository",
+            })
+        }
+    }
+}
+
 pub fn main() {
     let mut ck = Check::new("C50", "exploration");
-    ck.rule("One case = a generated directory tree (depth <= 5; plain dirs, `.git` dirs, bare repositories named x.git or plainly, gitfiles absolute/relative, submodule-like .git/modules layouts, hand-written linked worktrees, a `.git` symlink, directory symlinks, incomplete candidates: missing/odd HEAD, missing objects/refs, broken gitfiles) plus 6 queries (start directory absolute / relative to another working directory / with `..` or `.` components / through a directory symlink, inside work trees and inside git directories; 0..3 ceiling directories: ancestors incl. the start itself, other directories, non-existent ones, with trailing slashes or spelled through a symlink). Non-trivial: a query with >= 2 repository candidates on the physical upward path or with an active ceiling (a ceiling which is a strict ancestor of the physical start and at or below the found/first candidate). Distinct by hash of (layout, queries).");
+    ck.rule("layout: one case = a generated directory tree (depth <= 5; plain dirs, `.git` dirs, bare repositories named x.git or plainly, gitfiles absolute/relative/odd/broken, submodule-like .git/modules layouts, hand-written linked worktrees, a `.git` symlink, directory symlinks, incomplete candidates: missing/corrupt HEAD, missing objects/refs) plus 6 queries (start directory absolute / relative to another working directory / with `..` or `.` components / through a directory symlink, inside work trees and inside git directories; 0..3 ceiling directories: ancestors incl. the start itself, other directories, non-existent ones, with trailing slashes or spelled through a symlink). Non-trivial: a query with >= 2 repository candidates on the physical upward path or with an active ceiling (a strict ancestor of the physical start inside the layout). candidate-forms: one candidate (container: .git dir / bare dir / gitfile target / linked-worktree private dir) x every HEAD form x every missing-part form, optionally below a valid outer repository; non-trivial when the form is not the canonical one. Distinct by hash of the decoded case.");
     ck.assume(&format!("oracle: {} `rev-parse --absolute-git-dir --is-bare-repository --is-inside-work-tree --show-toplevel` with GIT_CEILING_DIRECTORIES; everything is on one filesystem and owned by the current user", Git::version()));
     ck.assume("ceiling directories are given to gitoxide as absolute paths, realpath-resolved when spelled through a symlink (this is what gix_discover's own GIT_CEILING_DIRECTORIES parser does); relative ceilings (ignored by git, an API-level question in gitoxide) and `apply_environment()` (process environment) are not exercised; match_ceiling_dir_or_error=false, cross_fs=false, dot_git_only=false");
-    ck.assume("bare-ness is a documented guess in gix-discover: the work tree is compared when git reports one for the start directory, and absence of a work tree is required only when git reports a bare repository whose directory is not named `.git` and has no index; configuration written into generated repositories is consistent with their layout (core.bare=false for .git dirs, true for bare ones, or no config)");
+    ck.assume("bare-ness is a documented guess in gix-discover: the work tree is compared when git reports one for the start directory, and absence of a work tree is required only when git reports a bare repository whose directory is not named `.git` and has no index/commondir/core.worktree; configuration written into generated repositories is consistent with their layout (core.bare=false for .git dirs, true for bare ones, or no config); linked-worktree private directories always carry the `gitdir` back link (gitrepository-layout requires it)");
 
-    ck.sub("layout", SubCfg::new(600, 16_000).max_len(400).max_shrink(200), |t, c| {
+    ck.sub("layout", SubCfg::new(600, 16_000).max_len(400).max_shrink(40), |t, c| {
         let mut layout = gen_layout(t);
         let scratch = infra!(c, Scratch::new("c50"), "scratch");
         let root = infra!(c, std::fs::canonicalize(&scratch.path), "canonical scratch");
@@ -678,46 +854,10 @@ pub fn main() {
                 c.label("no-hermetic-ceiling");
             }
             let ceil_env = git_ceils.join(":");
+            let canonical_ceilings: Vec<PathBuf> = gix_ceils.iter().filter_map(|p| canon(p)).collect();
 
-            // ---- oracle
             let answer = infra!(c, ask_git(&git, &cwd, &start_arg, &ceil_env), "git rev-parse");
-
-            // ---- gitoxide
-            let relative = start_arg.is_relative();
-            let res = {
-                let opts = || gix_discover::upwards::Options {
-                    ceiling_dirs: gix_ceils.clone(),
-                    match_ceiling_dir_or_error: false,
-                    ..Default::default()
-                };
-                if relative {
-                    let _g = CWD.write().unwrap_or_else(|e| e.into_inner());
-                    infra!(c, std::env::set_current_dir(&cwd), "chdir");
-                    let r = std::panic::catch_unwind(|| gix_discover::upwards_opts(&start_arg, opts()));
-                    let back = std::env::set_current_dir("/");
-                    infra!(c, back, "chdir back");
-                    match r {
-                        Ok(r) => r,
-                        Err(p) => std::panic::resume_unwind(p),
-                    }
-                } else {
-                    let _g = CWD.read().unwrap_or_else(|e| e.into_inner());
-                    gix_discover::upwards_opts(&start_arg, opts())
-                }
-            };
-            let gix_found = match res {
-                Ok((path, _trust)) => {
-                    let kind = match &path {
-                        gix_discover::repository::Path::LinkedWorkTree { .. } => "linked",
-                        gix_discover::repository::Path::WorkTree(_) => "worktree",
-                        gix_discover::repository::Path::Repository(_) => "repository",
-                    };
-                    let (gd, wt) = path.into_repository_and_work_tree_directories();
-                    let absolutize = |p: PathBuf| if p.is_absolute() { p } else { cwd.join(p) };
-                    Ok((absolutize(gd), wt.map(absolutize), kind))
-                }
-                Err(e) => Err(e.to_string()),
-            };
+            let gix_found = infra!(c, ask_gix(&cwd, &start_arg, &gix_ceils), "gix-discover");
 
             // candidates on the physical upward path (for the non-trivial rule)
             let cands_on_path = ancestors
@@ -725,9 +865,9 @@ pub fn main() {
                 .filter(|a| a.starts_with(&root))
                 .filter(|a| a.join(".git").symlink_metadata().is_ok() || a.join("HEAD").symlink_metadata().is_ok())
                 .count();
-            let active_ceiling = gix_ceils.iter().any(|ce| {
-                canon(ce).map_or(false, |ce| ce != hermetic && phys_start.starts_with(&ce) && phys_start != ce)
-            });
+            let active_ceiling = canonical_ceilings
+                .iter()
+                .any(|ce| ce.starts_with(&root) && *ce != root && phys_start.starts_with(ce) && phys_start != *ce);
             nontrivial |= cands_on_path >= 2 || active_ceiling;
             c.label_if(cands_on_path >= 2, "nested-candidates");
             c.label_if(active_ceiling, "active-ceiling");
@@ -737,77 +877,15 @@ pub fn main() {
                 start_arg, cwd, phys_start, git_ceils
             );
             descr.push(format!("{ctx} -> git {answer:?}"));
-            match (&answer, &gix_found) {
-                (GitOutcome::NotFound, Err(_)) => c.label("none"),
-                (GitOutcome::HardError(_), Err(_)) => c.label("git-hard-error-gix-none"),
-                (GitOutcome::NotFound, Ok((gd, wt, _))) => {
-                    c.fail_sig(
-                        "gix-finds-repository-git-finds-none",
-                        format!("{ctx}: git finds no repository, gitoxide finds git dir {gd:?} work tree {wt:?}"),
-                    );
+            match compare(&ctx, &answer, &gix_found, &phys_start, &canonical_ceilings) {
+                Cmp::Agree(l) => c.label(l),
+                Cmp::Differ(sig, msg) => {
+                    c.fail_sig(&sig, msg);
                     break;
                 }
-                (GitOutcome::HardError(e), Ok((gd, wt, _))) => {
-                    c.fail_sig(
-                        "gix-continues-past-candidate-git-dies-on",
-                        format!("{ctx}: git fails with {e:?}, gitoxide finds git dir {gd:?} work tree {wt:?}"),
-                    );
-                    break;
-                }
-                (GitOutcome::Found(a), Err(e)) => {
-                    c.fail_sig(
-                        "git-finds-repository-gix-finds-none",
-                        format!("{ctx}: git finds {a:?}, gitoxide fails: {e}"),
-                    );
-                    break;
-                }
-                (GitOutcome::Found(a), Ok((gd, wt, kind))) => {
-                    c.label(match *kind {
-                        "linked" => "found-linked",
-                        "worktree" => "found-worktree",
-                        _ => "found-repository",
-                    });
-                    let want_gd = canon(&a.git_dir);
-                    let got_gd = canon(gd);
-                    if want_gd.is_none() {
-                        c.infra(format!("git printed a git dir which does not exist: {a:?}"));
-                        return;
-                    }
-                    if got_gd != want_gd {
-                        c.fail_sig(
-                            "different-git-dir",
-                            format!("{ctx}: git dir differs: git {:?}, gitoxide {gd:?} (canonical {got_gd:?}); work tree {wt:?}", a.git_dir),
-                        );
-                        break;
-                    }
-                    if a.inside_work_tree {
-                        let want = a.toplevel.as_deref().and_then(canon);
-                        let got = wt.as_deref().and_then(canon);
-                        if want.is_none() {
-                            c.infra(format!("git is inside a work tree but printed no toplevel: {a:?}"));
-                            return;
-                        }
-                        if got != want {
-                            c.fail_sig(
-                                "different-work-tree",
-                                format!("{ctx}: work tree differs: git {:?}, gitoxide {wt:?}; git dir {gd:?}", a.toplevel),
-                            );
-                            break;
-                        }
-                    } else if a.bare
-                        && want_gd.as_deref().and_then(Path::file_name) != Some(std::ffi::OsStr::new(".git"))
-                        && !a.git_dir.join("index").exists()
-                        && !a.git_dir.join("commondir").exists()
-                        && !a.git_dir.join("config").exists_and_has_worktree()
-                    {
-                        if let Some(wt) = wt {
-                            c.fail_sig(
-                                "work-tree-for-bare-repository",
-                                format!("{ctx}: git reports a bare repository at {:?}, gitoxide reports work tree {wt:?}", a.git_dir),
-                            );
-                            break;
-                        }
-                    }
+                Cmp::Infra(m) => {
+                    c.infra(m);
+                    return;
                 }
             }
         }
@@ -815,14 +893,87 @@ pub fn main() {
         c.sample_with(|| format!("{:?}\n  {}", layout.nodes, descr.join("\n  ")));
     });
 
-    ck.finish();
-}
+    // Every form of a single candidate: what counts as a repository must agree.
+    ck.sub("candidate-forms", SubCfg::new(400, 4_000).max_len(16).max_shrink(30), |t, c| {
+        let head = ALL_HEADS[t.below(ALL_HEADS.len())];
+        let missing = ALL_MISSING[t.weighted(&[6, 1, 1, 1, 1])];
+        let container = *t.pick(&["dot-git", "bare", "gitfile", "linked-private"]);
+        let outer = t.bool();
+        let cfg = match t.weighted(&[3, 1]) {
+            0 => Some(container == "bare"),
+            _ => None,
+        };
+        let from_inside = t.chance(64);
+        c.key(&(head, missing, container, outer, cfg, from_inside));
+        c.label(container);
+        c.nontrivial(!(matches!(head, Head::Symbolic | Head::Detached) && missing == Missing::Nothing));
+        c.sample_with(|| format!("{container} head={head:?} missing={missing:?} outer={outer} cfg_bare={cfg:?} from_inside={from_inside}"));
+        let scratch = infra!(c, Scratch::new("c50f"), "scratch");
+        let root = infra!(c, std::fs::canonicalize(&scratch.path), "canonical scratch");
+        let home = root.join("home");
+        infra!(c, std::fs::create_dir_all(&home), "home");
+        let valid = GitDirSpec { head: Head::Symbolic, missing: Missing::Nothing, cfg_bare: Some(false), with_index: false };
+        let spec = GitDirSpec { head, missing, cfg_bare: cfg, with_index: false };
+        let o = root.join("t/o");
+        let x = o.join("x");
+        infra!(c, std::fs::create_dir_all(x.join("sub")), "mkdir");
+        if outer {
+            infra!(c, write_gitdir(&o.join(".git"), &valid, None), "outer");
+        }
+        let mut inside = None;
+        let r = match container {
+            "dot-git" => {
+                inside = Some(x.join(".git"));
+                write_gitdir(&x.join(".git"), &spec, None)
+            }
+            "bare" => {
+                inside = Some(x.clone());
+                write_gitdir(&x, &spec, None)
+            }
+            "gitfile" => {
+                let gd = root.join("store/g");
+                inside = Some(gd.clone());
+                write_gitdir(&gd, &spec, None)
+                    .and_then(|_| write(&x.join(".git"), format!("gitdir: {}\n", gd.display()).as_bytes()))
+            }
+            _ => {
+                // valid main repository elsewhere; the candidate is the private directory of a linked worktree
+                let main_git = root.join("t/m/.git");
+                let private = main_git.join("worktrees/w");
+                inside = Some(private.clone());
+                write_gitdir(&main_git, &valid, None)
+                    .and_then(|_| std::fs::create_dir_all(&private))
+                    .and_then(|_| write_head(&private, head))
+                    .and_then(|_| write(&private.join("commondir"), b"../..\n"))
+                    .and_then(|_| write(&private.join("gitdir"), format!("{}\n", x.join(".git").display()).as_bytes()))
+                    .and_then(|_| write(&x.join(".git"), format!("gitdir: {}\n", private.display()).as_bytes()))
+            }
+        };
+        infra!(c, r, "write candidate");
+        let start = match (&inside, from_inside) {
+            (Some(p), true) if p.is_dir() => p.clone(),
+            _ => x.join("sub"),
+        };
+        let git = Git::new(&root, &home);
+        let hermetic = root.parent().map(Path::to_path_buf).unwrap_or_else(|| PathBuf::from("/"));
+        let answer = infra!(c, ask_git(&git, &root, &start, &hermetic.display().to_string()), "git rev-parse");
+        let gix_found = infra!(c, ask_gix(&root, &start, std::slice::from_ref(&hermetic)), "gix-discover");
+        let ctx = format!("{container} candidate with HEAD {head:?}, {missing:?} missing, config bare={cfg:?}, outer repository: {outer}, start {start:?}");
+        match compare(&ctx, &answer, &gix_found, &start, &[hermetic.clone()]) {
+            Cmp::Agree(l) => c.label(l),
+            Cmp::Differ(sig, msg) => {
+                // attribute the disagreement to the form of the candidate
+                let sig = match sig.as_str() {
+                    "invalid-gitfile-is-skipped" => sig,
+                    _ if !matches!(head, Head::Symbolic | Head::Detached) => format!("head-form-{head:?}:{sig}"),
+                    _ if missing != Missing::Nothing => format!("parts-{missing:?}:{sig}"),
+                    _ => sig,
+                };
+                c.fail_sig(&sig, msg)
+            }
+            Cmp::Infra(m) => c.infra(m),
+        }
+    });
 
-trait ConfigProbe {
-    fn exists_and_has_worktree(&self) -> bool;
-}
-impl ConfigProbe for PathBuf {
-    fn exists_and_has_worktree(&self) -> bool {
-        std::fs::read_to_string(self).map_or(false, |s| s.contains("worktree"))
-    }
+    ck.finish();
 }
